@@ -91,6 +91,16 @@ CHECKS = {
         "respect otherwise), Go's x509 verifier for time windows. Legacy Microsoft style and per-signer timestamp variants not replayed.",
    technique="TLA+ spec + TLC exhaustive; spec behaviours replayed on the real timestamp client and verifier",
    engine="timestamp"),
+ "C07": dict(cat="model_checking", design="§4 C07",
+   text="spec/KeyCert.tla: Load (SameKey checks, first certificate = leaf) / Build / Emit over all key x certificate-source x "
+        "chain-order x PGP-certificate x path configurations; EmitImpliesMatch, MismatchIsError, MatchServed; 4 negative controls. "
+        "Binding: every configuration replayed through the real signinit.Init / certloader and one signer per construction path; "
+        "a certificate for another key must be an error; every emitted artifact is verified and the leaf it names must carry the "
+        "public key of the key that produced the signature (jar: chain order read independently).",
+   note="Trusted: relic's verifier for extracting the named leaf (cross-checked by the harness's CMS reader for jar); the fake token "
+        "supplies arbitrary private keys. PGP certificates only for RSA keys; cosign/PKCS#12 not replayed.",
+   technique="TLA+ decision model checked by TLC; all configurations replayed on the real loader and signers",
+   engine="keycert"),
 }
 
 NOT_YET = {}
